@@ -873,7 +873,13 @@ func (p *pkg) httpFacts() {
 		t := p.norm(h.Body)
 		planErrAborts = strings.Contains(t, "emitResponse(w,http.StatusBadRequest,string(response))\n\t\t\treturn") || strings.Contains(t, "emitResponse(w,http.StatusBadRequest,string(response))return")
 	}
-	emit("def batch : BatchFacts := { writeByIndex := %s, waitsAll := %s, planErrAborts := %s }", leanBool(byIndex), leanBool(waits), leanBool(planErrAborts))
+	plansFirst := false
+	if h != nil {
+		t := p.norm(h.Body)
+		plansFirst = strings.Contains(t, "for_,operation:=rangeplanned{opWg.Add(1)gog.executeRequest(operation.ctx,operation.plan,opWg,g.setResultFunc(operation.opNum,results,opMutex))}") &&
+			strings.Count(t, "gog.executeRequest(") == 1 && strings.Contains(t, "planned=append(planned,plannedOperation{requestContext,plan,opNum})")
+	}
+	emit("def batch : BatchFacts := { writeByIndex := %s, waitsAll := %s, planErrAborts := %s, plansAllBeforeExecuting := %s }", leanBool(byIndex), leanBool(waits), leanBool(planErrAborts), leanBool(plansFirst))
 
 	inj := p.funcs["injectFile"]
 	guards := []string{}
